@@ -77,6 +77,11 @@ func (r *Reqs) Previous(ctx context.Context, p module.Version) (module.Version, 
 			selected = v.Version
 		}
 	}
+	if selected == "" {
+		// There is no earlier version. mvs.Downgrade expects "none" here; with any other
+		// answer it keeps asking for the version before it and never terminates.
+		selected = "none"
+	}
 	return module.Version{Path: p.Path, Version: selected}, nil
 }
 
